@@ -340,6 +340,13 @@ class _ResourceOperations:
     def write_file(self, resource, contents: Union[str, FileContent]):
         data: FileContent
         if not isinstance(contents, bytes):
+            if resource.newlines is None and resource.exists():
+                # The file was never read through this resource object (e.g.
+                # a change loaded from a saved history): learn its newlines.
+                try:
+                    resource.read()
+                except OSError:
+                    pass
             data = rope.base.fscommands.unicode_to_file_data(
                 contents,
                 newlines=resource.newlines,
